@@ -250,6 +250,49 @@ def restart_from_hook_probe(ending):
     return simnet.run(go)
 
 
+def peer_forms_probe(address, peer, names):
+    """Sessions of one client configured with `address`, whose sockets report `peer` as the remote end, against devices
+    announcing `names` in turn: after every attempt - whatever its outcome - a new attempt must be accepted (never
+    'Already connected' with nothing alive). Returns the outcome per attempt."""
+    async def go(loop):
+        from aioesphomeapi import api_pb2 as pb
+        from aioesphomeapi.client import APIClient
+        net = simnet.Net(loop)
+        orig_start = net._start_connection
+
+        async def start(addr_infos, **kw):
+            sock = await orig_start(addr_infos, **kw)
+            sock.peer = peer
+            return sock
+        net._start_connection = start
+        outs = []
+        with net.patched():
+            cli = APIClient(address, 6053, None)
+            for name in names:
+                try:
+                    await cli.start_connection()
+                    task = asyncio.ensure_future(cli.finish_connection(login=False))
+                    await simnet.drain(loop)
+                    tr = net.transports[-1]
+                    tr.feed(simnet.plain_msg(pb.HelloResponse(api_version_major=1, api_version_minor=10, name=name)))
+                    await simnet.drain(loop)
+                    await task
+                    outs.append("ok")
+                except Exception as e:  # noqa: BLE001
+                    from vlib import conntrace
+                    outs.append(conntrace.exc_name(e) + ("/already" if "Already connected" in str(e) else ""))
+                if outs[-1] == "ok":
+                    await cli.disconnect(force=True)
+                    await simnet.drain(loop)
+            try:
+                await cli.disconnect(force=True)
+            except Exception:  # noqa: BLE001
+                pass
+            await simnet.drain(loop)
+        return outs
+    return simnet.run(go)
+
+
 def run(rep, tier, seed):
     connfamily.N_REG = connfamily.n_registered()
     rng = random.Random(seed)
@@ -300,6 +343,16 @@ def run(rep, tier, seed):
         if r != "accepted":
             rep.violation("C19/refused-in-stop-callback", f"the session was ended by {ending}; start_connection() called from the stop callback (before it first suspends) "
                           f"answered {r!r} although no session is alive and no attempt is in progress", {"kind": "restart-from-hook", "ending": ending})
+    for address, peer in (("10.0.0.1", ("10.0.0.1", 6053)), ("fd00::7", ("fd00::7", 6053, 0, 0)), ("kitchen.local", ("fd00::7", 6053, 0, 0)),
+                          ("kitchen", ("10.0.0.9", 6053)), ("kitchen.local", ("10.0.0.9", 6053)), ("fe80::1%eth0", ("fe80::1%eth0", 6053, 0, 3))):
+        for names in (["kitchen", "kitchen", "kitchen"], ["dev", "kitchen", "dev"], ["", "kitchen", ""]):
+            outs = peer_forms_probe(address, peer, names)
+            rep.case(("peer-forms", address, peer[0], tuple(names)), True, sample={"address": address, "peer": peer[0], "device_names": names, "attempts": outs})
+            rep.bump("probe:peer-forms")
+            if any("already" in o for o in outs) or any(o != "ok" and not o.startswith("L.") for o in outs):
+                rep.violation("C19/refused-after-failed-attempt", f"client for {address!r} (peer address {peer[0]!r}), consecutive sessions with devices named {names}: "
+                              f"attempts ended {outs}; a raw error / 'Already connected' with no session alive",
+                              {"kind": "peer-forms", "address": address, "peer": list(peer), "names": names})
     rep.coverage["disagreements"] = len(disagreements)
     if disagreements and not rep.violations:
         rep.violations.append(("C19/correspondence", "Model/Client.v and the real APIClient disagree on a trace; no violation of C19 found among the explored stories",
@@ -315,6 +368,9 @@ def replay(path):
     d = json.loads(open(path).read())["replay"]
     if d.get("kind") == "restart-from-hook":
         print(restart_from_hook_probe(d["ending"]))
+        return 0
+    if d.get("kind") == "peer-forms":
+        print(peer_forms_probe(d["address"], tuple(d["peer"]), d["names"]))
         return 0
     if "story" not in d:
         print("nothing to replay:", d.get("kind"))
